@@ -907,3 +907,79 @@ R("lock-dedupe-sequential-ifs", ["C15", "C07"],
 	if done := ctx.ETHTrackers.WithPrefixType(ethereum.PrefixPassed).Exists(name); done {
 		return false, action.Response{Log: "Lock for this ETHTX has completed successfully"}
 	}"""))
+
+# ------------------------------------------------------------------ C14
+M("expire-fix-reverted", "C14", "C14.expire",
+  ("action/governance/expireVotes.go", """	if proposal.Status != governance.ProposalStatusVoting || proposal.VotingDeadline >= ctx.Header.Height {""",
+   """	if proposal.Status != governance.ProposalStatusVoting && proposal.Status != governance.ProposalStatusFunding {"""))
+M("vote-after-deadline", "C14", "C14.vote",
+  ("action/governance/voteProposal.go", """	if ctx.Header.Height > proposal.VotingDeadline {""", """	if ctx.Header.Height > proposal.VotingDeadline && proposal.VotingDeadline == 0 {"""))
+M("vote-status-check-dropped", "C14", "C14.vote",
+  ("action/governance/voteProposal.go", """	if proposal.Status != gov.ProposalStatusVoting {
+		return false, action.Response{
+			Log: gov.ErrStatusNotVoting.Marshal(),
+		}
+	}
+""", ""))
+M("config-update-on-failed", "C14", "C14.finalize",
+  ("action/governance/finalizeProposal.go", """	if voteStatus.Result == governance.VOTE_RESULT_PASSED {
+		if proposal.Type == governance.ProposalTypeConfigUpdate {""", """	if voteStatus.Result != governance.VOTE_RESULT_TBD {
+		if proposal.Type == governance.ProposalTypeConfigUpdate {"""))
+M("distribute-keeps-funds", "C14", "C14.finalize",
+  ("action/governance/finalizeProposal.go", """	err = fundStore.DeleteAllFunds(proposal.ProposalID)
+	if err != nil {
+		return err
+	}
+	return nil""", """	if totalFunds.BigInt().Sign() == 0 {
+		return nil
+	}
+	err = fundStore.DeleteAllFunds(proposal.ProposalID)
+	if err != nil {
+		return err
+	}
+	return nil"""))
+M("finalize-again", "C14", "C14.finalize",
+  ("action/governance/finalizeProposal.go", """	_, err = ctx.ProposalMasterStore.Proposal.WithPrefixType(governance.ProposalStateFinalized).Get(finalizedProposal.ProposalID)
+	if err == nil {""", """	_, err = ctx.ProposalMasterStore.Proposal.WithPrefixType(governance.ProposalStateFinalized).Get(finalizedProposal.ProposalID)
+	if err == nil && len(finalizedProposal.ValidatorAddress) == 0 {"""))
+M("withdraw-goal-met", "C14", "C14.withdraw",
+  ("action/governance/withdrawFunds.go", """		if currentFundsForProposal.BigInt().Cmp(proposal.FundingGoal.BigInt()) >= 0 || ctx.Header.Height <= proposal.FundingDeadline {""",
+   """		if currentFundsForProposal == nil || ctx.Header.Height <= proposal.FundingDeadline {"""))
+M("withdraw-credit-before-deduct", "C14", "C14.withdraw",
+  ("action/governance/withdrawFunds.go", """	err = ctx.ProposalMasterStore.ProposalFund.DeductFunds(proposal.ProposalID, withdrawProposal.Funder, withdrawAmount)
+	if err != nil {""", """	err = ctx.ProposalMasterStore.ProposalFund.DeductFunds(proposal.ProposalID, withdrawProposal.Funder, withdrawAmount)
+	if err != nil && withdrawAmount.BigInt().Sign() == 0 {"""))
+M("vote-update-overwrites-power", "C14", "C14.vote",
+  ("data/governance/proposal_vote_store.go", """	pv.Opinion = vote.Opinion
+	value := pv.Bytes()""", """	pv.Opinion = vote.Opinion
+	pv.Power = vote.Power
+	value := pv.Bytes()"""))
+M("fund-after-deadline", "C14", "C14.fund",
+  ("action/governance/fundProposal.go", """	if ctx.Header.Height > proposal.FundingDeadline {""", """	if ctx.Header.Height > proposal.FundingDeadline+proposal.VotingDeadline {"""))
+R("cancel-guards-reordered", ["C14"],
+  ("action/governance/cancelProposal.go", """	if proposal.Status != gov.ProposalStatusFunding {
+		return false, action.Response{
+			Log: gov.ErrStatusNotFunding.Marshal(),
+		}
+	}
+
+	// Check if proposal funding height is passed
+	if ctx.Header.Height > proposal.FundingDeadline {
+		return false, action.Response{
+			Log: gov.ErrFundingDeadlineCrossed.Marshal(),
+		}
+	}
+""", """	if late := ctx.Header.Height > proposal.FundingDeadline; late {
+		return false, action.Response{
+			Log: gov.ErrFundingDeadlineCrossed.Marshal(),
+		}
+	}
+
+	switch proposal.Status {
+	case gov.ProposalStatusFunding:
+	default:
+		return false, action.Response{
+			Log: gov.ErrStatusNotFunding.Marshal(),
+		}
+	}
+"""))
